@@ -38,7 +38,7 @@ def title(d):
     p = os.path.join(d, "README.md")
     if os.path.exists(p):
         t = open(p).readline().strip().lstrip("# ").strip()
-        t = re.sub(r"^([CV]\d+\s*/\s*)?[mM]\d\s*[-—]\s*", "", t)
+        t = re.sub(r"^([CRSV]\d+\s*/\s*)?[mM]\d\s*[-—]\s*", "", t)
         return t.replace("|", "/")
     m = json.load(open(os.path.join(d, "meta.json")))
     return (m.get("what") or m.get("needs") or "").replace("|", "/")
